@@ -13,6 +13,7 @@ TOK = re.compile(r"""
   | (?P<id>[A-Za-z_][A-Za-z0-9_]*)
   | (?P<num>[0-9]+)
   | (?P<str>"(?:[^"\\]|\\.)*")
+  | (?P<chr>'(?:[^'\\])')
   | (?P<op>::|=>|==|!=|->|&&|\|\||\+=|[{}()\[\]<>;:,.=&!|*+\-/#?'])
 """, re.X | re.S)
 
